@@ -6,6 +6,7 @@ package main
 // (the harness binary is not a test binary, so the error dump is off).
 
 import (
+	"errors"
 	"fmt"
 	"strconv"
 	"strings"
@@ -123,6 +124,83 @@ func runC05(r *run) {
 	if r.tier == "thorough" {
 		n = 40000
 	}
+	judge := func(c *encCase, i int) {
+		// oracle
+		if c.payload == nil {
+			r.violate(violation{What: "a logfmt record was not delivered as one write", Input: encDescribe(c), Actual: c.writes})
+			return
+		}
+		line := string(c.payload)
+		blank := c.lvl == 8 && strings.Trim(c.msg, "\n\r \t") == ""
+		if blank {
+			if line != "\n" {
+				r.violate(violation{What: "a blank Print is not a single newline", Input: encDescribe(c), Actual: line})
+			}
+			return
+		}
+		if strings.Count(line, "\n") != 1 || !strings.HasSuffix(line, "\n") {
+			r.violate(violation{What: "a logfmt record is not exactly one line", Input: encDescribe(c), Actual: fmt.Sprintf("%q", line)})
+			return
+		}
+		for _, ch := range []byte(line[:len(line)-1]) {
+			if ch < 0x20 || ch == 0x7f {
+				r.violate(violation{What: "a raw control byte reached the logfmt line", Input: encDescribe(c), Actual: fmt.Sprintf("%q", line)})
+				break
+			}
+		}
+		pairs, err := lfTokenize(line[:len(line)-1])
+		if i%3 == 0 {
+			// the reader model of the proof (split at spaces outside quotes, then at the first '=') against this tokenizer
+			obs := "err"
+			if err == nil {
+				var parts []string
+				for _, p := range pairs {
+					parts = append(parts, hxs(p.k)+":"+hxs(p.v))
+				}
+				obs = "ok " + strings.Join(parts, " ")
+			}
+			r.emit("Q tok "+hxs(line[:len(line)-1]), obs)
+		}
+		if err != nil {
+			r.violate(violation{What: "the logfmt line does not tokenize", Input: encDescribe(c), Actual: err.Error() + " in " + fmt.Sprintf("%q", line)})
+			return
+		}
+		var want []lfPair
+		want = append(want, lfPair{"time", "Q" + c.tsText})
+		if c.name != "" {
+			want = append(want, lfPair{"logger", "Q" + c.name})
+		}
+		want = append(want, lfPair{"level", "Q" + slog.Level(c.lvl).String()}, lfPair{"msg", "Q" + c.msg})
+		lfExpect("", effective(c.attrs), &want)
+		if c.caller {
+			want = append(want, lfPair{"caller.file", "Q"}, lfPair{"caller.line", "R"}, lfPair{"caller.function", "Q"})
+		}
+		ok := len(pairs) == len(want)
+		detail := ""
+		for j := 0; ok && j < len(want); j++ {
+			if pairs[j].k != want[j].k {
+				ok, detail = false, fmt.Sprintf("pair %d has key %q, want %q", j, pairs[j].k, want[j].k)
+				break
+			}
+			switch {
+			case strings.HasPrefix(want[j].v, "Q"):
+				u, e := strconv.Unquote(pairs[j].v)
+				if e != nil || u != want[j].v[1:] {
+					ok, detail = false, fmt.Sprintf("value of %q is %s, want the quoted form of %q", want[j].k, pairs[j].v, want[j].v[1:])
+				}
+			case want[j].v == "<nil>":
+				if pairs[j].v != "<nil>" {
+					ok, detail = false, fmt.Sprintf("value of %q is %s, want <nil>", want[j].k, pairs[j].v)
+				}
+			}
+		}
+		if !ok {
+			if detail == "" {
+				detail = fmt.Sprintf("%d pairs, want %d", len(pairs), len(want))
+			}
+			r.violate(violation{What: "parsing the logfmt line does not give back what was logged: " + detail, Input: encDescribe(c), Actual: fmt.Sprintf("%q", line)})
+		}
+	}
 	for i := 0; i < n; i++ {
 		c := &encCase{format: "l", lvl: encLevels[g.intn(len(encLevels))], ts: g.encTime(), msg: g.encMessage(true, false),
 			attrs: g.genAttrs(g.intn(9), 3, true, false), caller: g.chance(1, 4), tagW: 3, minW: 36}
@@ -174,6 +252,22 @@ func runC05(r *run) {
 		if g.chance(1, 2) {
 			c.name = []string{"app", "my logger", "q\"uote"}[g.intn(3)]
 		}
+		if i%25 == 7 {
+			// one group value shared between records, each time below another parent (and at another depth): its
+			// members appear under the keys of the parent they were logged under
+			leafG := gattr{key: "req", isGroup: true, val: gval{kind: "group", items: []gattr{{key: "id", val: gval{kind: "int", goVal: 7, tok: "I:7"}}, {key: "path", val: gval{kind: "string", goVal: "/x y", tok: "S:" + hxs("/x y"), text: "/x y"}}}}}
+			shared := toAttrs([]gattr{leafG})[0]
+			for _, parents := range [][]string{{"http"}, {"grpc"}, {"grpc", "inner"}, {}, {"http"}} {
+				cur, curV := leafG, shared
+				for k := len(parents) - 1; k >= 0; k-- {
+					cur = gattr{key: parents[k], isGroup: true, val: gval{kind: "group", items: []gattr{cur}}}
+					curV = slog.NewGroupedAttr(parents[k], curV)
+				}
+				sc := &encCase{format: "l", lvl: 4, ts: g.encTime(), msg: "shared group value", attrs: []gattr{cur}, built: slog.Attrs{curV}, tagW: 3, minW: 36}
+				encRun(r, "C05", sc)
+				judge(sc, i)
+			}
+		}
 		if g.chance(1, 3) {
 			// a record in another format right before: the pooled formatting context is shared by all loggers
 			noise := &encCase{format: []string{"j", "c"}[g.intn(2)], lvl: 4, ts: g.encTime(), msg: g.encMessage(true, true),
@@ -217,84 +311,21 @@ func runC05(r *run) {
 		for k := range kinds {
 			r.count("kind=" + k)
 		}
-		// oracle
-		if c.payload == nil {
-			r.violate(violation{What: "a logfmt record was not delivered as one write", Input: encDescribe(c), Actual: c.writes})
-			continue
-		}
+		judge(c, i)
 		line := string(c.payload)
-		blank := c.lvl == 8 && strings.Trim(c.msg, "\n\r \t") == ""
-		if blank {
-			if line != "\n" {
-				r.violate(violation{What: "a blank Print is not a single newline", Input: encDescribe(c), Actual: line})
-			}
-			continue
-		}
-		if strings.Count(line, "\n") != 1 || !strings.HasSuffix(line, "\n") {
-			r.violate(violation{What: "a logfmt record is not exactly one line", Input: encDescribe(c), Actual: fmt.Sprintf("%q", line)})
-			continue
-		}
-		for _, ch := range []byte(line[:len(line)-1]) {
-			if ch < 0x20 || ch == 0x7f {
-				r.violate(violation{What: "a raw control byte reached the logfmt line", Input: encDescribe(c), Actual: fmt.Sprintf("%q", line)})
-				break
-			}
-		}
-		pairs, err := lfTokenize(line[:len(line)-1])
-		if i%3 == 0 {
-			// the reader model of the proof (split at spaces outside quotes, then at the first '=') against this tokenizer
-			obs := "err"
-			if err == nil {
-				var parts []string
-				for _, p := range pairs {
-					parts = append(parts, hxs(p.k)+":"+hxs(p.v))
-				}
-				obs = "ok " + strings.Join(parts, " ")
-			}
-			r.emit("Q tok "+hxs(line[:len(line)-1]), obs)
-		}
-		if err != nil {
-			r.violate(violation{What: "the logfmt line does not tokenize", Input: encDescribe(c), Actual: err.Error() + " in " + fmt.Sprintf("%q", line)})
-			continue
-		}
-		var want []lfPair
-		want = append(want, lfPair{"time", "Q" + c.tsText})
-		if c.name != "" {
-			want = append(want, lfPair{"logger", "Q" + c.name})
-		}
-		want = append(want, lfPair{"level", "Q" + slog.Level(c.lvl).String()}, lfPair{"msg", "Q" + c.msg})
-		lfExpect("", effective(c.attrs), &want)
-		if c.caller {
-			want = append(want, lfPair{"caller.file", "Q"}, lfPair{"caller.line", "R"}, lfPair{"caller.function", "Q"})
-		}
-		ok := len(pairs) == len(want)
-		detail := ""
-		for j := 0; ok && j < len(want); j++ {
-			if pairs[j].k != want[j].k {
-				ok, detail = false, fmt.Sprintf("pair %d has key %q, want %q", j, pairs[j].k, want[j].k)
-				break
-			}
-			switch {
-			case strings.HasPrefix(want[j].v, "Q"):
-				u, e := strconv.Unquote(pairs[j].v)
-				if e != nil || u != want[j].v[1:] {
-					ok, detail = false, fmt.Sprintf("value of %q is %s, want the quoted form of %q", want[j].k, pairs[j].v, want[j].v[1:])
-				}
-			case want[j].v == "<nil>":
-				if pairs[j].v != "<nil>" {
-					ok, detail = false, fmt.Sprintf("value of %q is %s, want <nil>", want[j].k, pairs[j].v)
-				}
-			}
-		}
-		if !ok {
-			if detail == "" {
-				detail = fmt.Sprintf("%d pairs, want %d", len(pairs), len(want))
-			}
-			r.violate(violation{What: "parsing the logfmt line does not give back what was logged: " + detail, Input: encDescribe(c), Actual: fmt.Sprintf("%q", line)})
-		}
 		if i < 4 {
 			r.sample(map[string]any{"record": encDescribe(c), "line": line})
 		}
+	}
+	// some logger of the process is set to the Debug level (which switches the process-wide debug mode on): in
+	// production the records of every logger stay one line, error values included
+	slog.New("c05dbg").SetLevel(slog.DebugLevel)
+	for i := 0; i < 80; i++ {
+		m := g.text(8, true)
+		c := &encCase{format: "l", lvl: encLevels[g.intn(len(encLevels))], ts: g.encTime(), msg: g.encMessage(true, false),
+			attrs: append(g.genAttrs(g.intn(4), 2, true, false), gattr{key: "err", val: gval{kind: "error", goVal: errors.New(m), tok: "E:" + hxs(m), text: m}}), caller: g.chance(1, 4), tagW: 3, minW: 36}
+		encRun(r, "C05", c)
+		judge(c, 1000+i)
 	}
 	// the quoting functions themselves, and the standard readers of their output
 	nq := 1500
